@@ -122,7 +122,7 @@ class Registry:
         self._next_code = 1
         self._envs = {}        # env key -> eid
         self._next_env = 1
-        self._opts = {}        # as_tuple -> oid
+        self._opts = {}        # (recursive, user_requested, internal_convert_user_code, features) -> oid
         self._opt_objs = {}    # oid -> ConversionOptions
         self._keep = []        # globals dicts named in env keys stay alive (id stability)
         self._lock = threading.RLock()
@@ -202,15 +202,19 @@ class Registry:
     def n_envs(self):
         return self._next_env - 1
 
-    # -- option values
-    def opt_id(self, subkey, create=True):
-        as_tuple = getattr(subkey, 'as_tuple', None)
-        if as_tuple is None:
-            return 0
+    # -- option values: identified by the four documented fields, read directly (not through as_tuple / __eq__ /
+    # __hash__, which are part of what is under test)
+    @staticmethod
+    def opt_key(o):
         try:
-            r, u, i, fs = as_tuple()
-            key = (bool(r), bool(u), bool(i), tuple(sorted(str(f) for f in fs)))
-        except Exception:
+            return (bool(o.recursive), bool(o.user_requested), bool(o.internal_convert_user_code),
+                    tuple(sorted(str(f) for f in o.optional_features)))
+        except Exception:  # noqa: BLE001 - not a ConversionOptions (e.g. a mutated get_caching_key returns a bool)
+            return None
+
+    def opt_id(self, subkey, create=True):
+        key = self.opt_key(subkey)
+        if key is None:
             return 0
         with self._lock:
             return self._opt_id(subkey, key, create)
@@ -224,8 +228,7 @@ class Registry:
         return oid or 0
 
     def set_opt(self, opts, oid):
-        r, u, i, fs = opts.as_tuple()
-        self._opts[(bool(r), bool(u), bool(i), tuple(sorted(str(f) for f in fs)))] = oid
+        self._opts[self.opt_key(opts)] = oid
         self._opt_objs[oid] = opts
 
     def opt(self, oid):
